@@ -407,11 +407,11 @@ fn malform(r: &mut Rng, mut b: Vec<u8>) -> (Vec<u8>, &'static str) {
             let l = get_len(&b, lo, ls);
             let add = if ls == 2 { *r.pick(&[2u32, 100, 60000]) } else { *r.pick(&[2u32, 100, 70000, 1 << 24]) };
             set_len(&mut b, lo, ls, l.saturating_add(add)); (b, "malformed-len-beyond") }
-        4 => { let l = get_len(&b, lo, ls); set_len(&mut b, lo, ls, if r.coin() { l + 1 } else { l.saturating_sub(1) }); (b, "malformed-odd-length") }
+        4 => { let l = get_len(&b, lo, ls); set_len(&mut b, lo, ls, if r.coin() { l.wrapping_add(1) } else { l.saturating_sub(1) }); (b, "malformed-odd-length") }
         5 => { // odd length with the group length kept consistent: drop / add one value byte
             let l = get_len(&b, lo, ls);
-            if l > 0 && r.coin() { set_len(&mut b, lo, ls, l - 1); b.remove(lo + ls); b[12..16].copy_from_slice(&(glen - 1).to_le_bytes()); }
-            else { set_len(&mut b, lo, ls, l + 1); b.insert(lo + ls, b'x'); b[12..16].copy_from_slice(&(glen + 1).to_le_bytes()); }
+            if l > 0 && r.coin() { set_len(&mut b, lo, ls, l - 1); b.remove(lo + ls); b[12..16].copy_from_slice(&glen.wrapping_sub(1).to_le_bytes()); }
+            else { set_len(&mut b, lo, ls, l.wrapping_add(1)); b.insert(lo + ls, b'x'); b[12..16].copy_from_slice(&glen.wrapping_add(1).to_le_bytes()); }
             (b, "malformed-odd-consistent") }
         6 => { let vr = *r.pick(&[*b"ZZ", [0, 0], *b"ui", *b"UN", *b"OB", *b"SQ", *b"UT", *b"OW", [0xff, 0xff], *b"UL", *b"US"]); b[eo + 4] = vr[0]; b[eo + 5] = vr[1];
             (b, "malformed-vr") }
